@@ -70,6 +70,14 @@ MINLEN = {
 }
 
 
+# list fields whose elements may be None in the abstract grammar's practice (keyword-only parameters without default,
+# dictionary unpacking): the positions of the None entries are part of the shape
+NONE_SHAPES = {
+    ("arguments", "kw_defaults"): [[1, None], [None, 1], [1, None, 1], [None, 1, None], [None, None, 1]],
+    ("Dict", "keys"): [[None], [1, None], [None, 1], [None, None]],
+}
+
+
 def minimal(sort: str) -> Any:
     m = {
         "expr": lambda: ast.Name("a", ast.Load()),
@@ -190,6 +198,10 @@ def variants(cls: type, depth: int) -> Iterator[Any]:
                     continue
                 node = minimal_of(cls)
                 setattr(node, name, [_distinct(minimal(ty), i) for i in range(ln)])
+                yield fix(node)
+            for shape in NONE_SHAPES.get((cls.__name__, name), ()):
+                node = minimal_of(cls)
+                setattr(node, name, [None if x is None else _distinct(minimal(ty), i) for i, x in enumerate(shape)])
                 yield fix(node)
             for v in child_values(cls, name, ty, depth):
                 for ln, pos in ((max(1, minlen), 0), (max(2, minlen), 1), (max(2, minlen), 0)):
